@@ -25,7 +25,7 @@ RULE = ('1..6 symbols are drawn from a pool of names built to overlap (AB, ABC, 
         'case JSON.')
 ASSUMPTIONS = [
     'symbol names have at least two characters (the #define grammar of the tool requires it)',
-    'symbols are not placed next to "." "$" "%" or inside quoted strings (word-ness there is not specified)',
+    'symbols are not placed next to "." "$" "%" (word-ness there is not specified); inside quoted strings they are space-separated words',
     'expression-valued symbols are only combined with "+" (textual substitution into other contexts is precedence dependent)',
 ]
 BUDGET = {'quick': 20000, 'thorough': 1000000}
@@ -73,8 +73,11 @@ def _symtab(draw, allow_cycle=True):
         names.insert(draw(st.integers(0, len(names) - 1)), draw(st.sampled_from(NUMLIKE[:3])))
     syms = {}
     for i, n in enumerate(names):
-        k = draw(st.integers(0, 9))
-        if k < 4 or i == 0:
+        k = draw(st.integers(0, 10))
+        if k == 10:
+            # the replacement is an identifier that merely contains symbol names (a constant of the program)
+            v = draw(st.sampled_from([w for w in LOOKALIKE if len(w) > 1]))
+        elif k < 4 or i == 0:
             v = str(draw(st.integers(0, 99)))
         elif k < 7:
             v = draw(st.sampled_from(names[:i]))
@@ -113,6 +116,7 @@ def _cases(draw, tier):
         if srcs[dup[0]] == 'incdefine' and dup[1] == 'define':
             dup = None
     looks = draw(st.lists(st.sampled_from([w for w in LOOKALIKE if len(w) > 1]), min_size=1, max_size=4, unique=True))
+    looks += [v for v in syms.values() if v in LOOKALIKE and v not in looks]
     shadow = [n for n in names if srcs[n] == 'define' and draw(st.integers(0, 2)) == 0]
     lines = []
     for n in names:
@@ -123,6 +127,9 @@ def _cases(draw, tier):
         if draw(st.booleans()):
             lines.append(('use', draw(_use(names, looks, shadow_only=None))))
     lines.append(('use', draw(_use(names, looks, shadow_only=None))))
+    if draw(st.integers(0, 3)) == 0:
+        # whole words inside a quoted string are occurrences like any other (the statement makes no exception)
+        lines.insert(draw(st.integers(0, len(lines))), (draw(st.sampled_from(['usestr', 'usebare'])), draw(st.lists(st.sampled_from(names + looks + ['hi', 'x']), min_size=1, max_size=4))))
     empty = None
     if draw(st.integers(0, 3)) == 0 and not cyc:
         empty = {'name': 'EMPTYSYM', 'src': draw(st.sampled_from(['config', 'cli', 'define']))}
@@ -173,7 +180,7 @@ def _eval_additive(text, consts):
 
 
 ISA_BASE = {
-    'general': {'address_size': 16, 'endian': 'big', 'registers': ['a']},
+    'general': {'address_size': 16, 'endian': 'big', 'registers': ['a'], 'allow_embedded_strings': True},
     'operand_sets': {},
     'instructions': {'nop': {'bytecode': {'value': 0xEA, 'size': 8}}},
 }
@@ -266,6 +273,14 @@ def execute(case, ctx):
             if arg in defined:
                 expect_reject = True
             defined[arg] = syms[arg]
+        elif kind in ('usestr', 'usebare'):
+            text = ' '.join(arg)
+            src.append(('.cstr "' if kind == 'usestr' else '"') + text + '"')     # the bare form is an embedded string
+            try:
+                want += expand(text, defined).encode() + b'\0'
+            except Cycle:
+                expect_reject = True
+                cyc_used = True
         else:
             text = '.byte ' + ', '.join(arg)
             src.append(text)
